@@ -27,6 +27,8 @@
 #include <gnu_gama/local/language.h>
 #include <gnu_gama/intfloat.h>
 #include <gnu_gama/gon2deg.h>
+#include <csignal>
+#include <unistd.h>
 #include "proto.h"
 
 using namespace GNU_gama::local;
@@ -130,6 +132,14 @@ public:
   std::string msg;
 };
 
+// a document on which the parser does not come back within the limit: report and leave with status 88
+// (the runner restarts the harness after the offending case)
+static void on_alarm(int) {
+  static const char m[] = "O timeout\n";
+  ssize_t r = write(1, m, sizeof m - 1); (void)r;
+  _exit(88);
+}
+
 static void parse_doc(const std::string& doc, long k) {
   LocalNetwork ln;
   Probe p(ln);
@@ -169,6 +179,7 @@ static std::string lit_result(Probe& p, const std::string& s) {
 int main()
 {
   set_gama_language(en);
+  std::signal(SIGALRM, on_alarm);
   std::string line;
   bool is_case;
   LocalNetwork ln0;
@@ -177,7 +188,10 @@ int main()
     if (is_case) continue;
     std::vector<std::string> t = vp::tokens(line);
     if (t.size() == 3 && t[0] == "doc") {
+      std::cout.flush();
+      alarm(10);
       parse_doc(unhexs(t[1]), std::atol(t[2].c_str()));
+      alarm(0);
     } else if (t.size() == 2 && t[0] == "lit") {
       std::cout << "lit " << lit_result(lp, unhexs(t[1])) << "\n";
     } else if (t.size() == 3 && t[0] == "enum") {
